@@ -148,6 +148,11 @@ LocTargetsOf(i, bs) ==
     IN  around(Zero) \cup around(tot) \cup UNION {around(b.ufoff) : b \in bs}
 LocateIn(bl, t) == LET S == ContainingIn(bl, t) IN IF S = {} THEN 0 ELSE CHOOSE k \in S : TRUE
 LocateDecl(i, t) == LocateIn(Layout(i).bl, t)
+\* lzma_index_checks() of a copy of i after lzma_index_stream_flags() has set the Check of its last Stream to c:
+\* the check types of the earlier Streams plus c.  (Makes the accumulated mask observable, so that a call that
+\* must not have changed the index - a failed cat, say - cannot have changed it invisibly.)
+ChecksAfterFlags(i, c) == Mask(ChecksI([i EXCEPT !.streams[Len(i.streams)].flags = [NoFlags EXCEPT !.set = TRUE, !.check = c]]))
+ProbeChecks == <<0, 1, 4, 10>>
 Observe(i) ==
     LET L == Layout(i)
         bls == SelectSeq(L.bl, LAMBDA b : Sampled(i, L, b))
@@ -157,6 +162,7 @@ Observe(i) ==
     IN  [streams |-> Len(i.streams), blocks |-> BlockCount(i), size |-> SizeI(i), total |-> TotalSize(i),
          ssize |-> StreamSizeI(i), fsize |-> FileSize(i), usize |-> USizeI(i), checks |-> Mask(ChecksI(i)),
          mem |-> MemUsage(Len(i.streams), BlockCount(i)),
+         probe |-> [n \in 1..Len(ProbeChecks) |-> <<ProbeChecks[n], ChecksAfterFlags(i, ProbeChecks[n])>>],
          st |-> L.st, bl |-> bls, small |-> Small(i),
          counts |-> [m \in 1..4 |-> Len(its[m])],
          any |-> listing(ANY), stream |-> listing(STREAM), block |-> listing(BLOCK), nonempty |-> listing(NONEMPTY),
